@@ -48,6 +48,8 @@ type Client struct {
 	out     map[int]bool // outstanding request ids
 	soloOut bool
 	soloID  int
+	stalled bool          // the client has stopped reading: the gateway's next write to it blocks
+	resume  chan struct{} // closed when it reads again
 }
 
 type httpReq struct {
@@ -188,6 +190,7 @@ func (w *World) watchStop() {
 		if !ok {
 			return
 		}
+		w.unstallAll()
 		w.mu.Lock()
 		s := ""
 		if err != nil {
@@ -197,6 +200,40 @@ func (w *World) watchStop() {
 		w.running = false
 		w.mu.Unlock()
 	}()
+}
+
+// stall makes a client stop reading after the frame it is reading now.
+func (w *World) stall(sym string) bool {
+	w.mu.Lock()
+	defer w.mu.Unlock()
+	c := w.clients[sym]
+	if c == nil || c.closed || c.eof || c.stalled {
+		return false
+	}
+	c.stalled, c.resume = true, make(chan struct{})
+	return true
+}
+
+// unstallAll is called when the service has stopped: whether the gateway has
+// closed a stalled client's socket is probed by a write (a read would let a
+// blocked gateway write through), then the client reads again.
+func (w *World) unstallAll() {
+	w.mu.Lock()
+	var cs []*Client
+	for _, c := range w.clients {
+		if c.stalled {
+			cs = append(cs, c)
+		}
+	}
+	w.mu.Unlock()
+	for _, c := range cs {
+		err := c.ws.WriteControl(websocket.PingMessage, nil, time.Now().Add(10*time.Millisecond))
+		w.mu.Lock()
+		w.logAdd(Rec{"e": "stallprobe", "c": c.sym, "open": err == nil})
+		c.stalled = false
+		close(c.resume)
+		w.mu.Unlock()
+	}
 }
 
 func (w *World) gate(kind, id string) {
@@ -424,7 +461,12 @@ func (w *World) openClient(sym, ver string, hdr http.Header) bool {
 				return
 			}
 			c.inbox = append(c.inbox, data)
+			resume := c.resume
+			stalled := c.stalled
 			w.mu.Unlock()
+			if stalled {
+				<-resume
+			}
 		}
 	}()
 	lg := ver == "1.1.1" || ver == "1.2.0" || ver == "none"
@@ -494,6 +536,12 @@ func (w *World) closeClient(sym string) bool {
 	}
 	c.closed = true
 	c.ws.Close()
+	w.mu.Lock()
+	if c.stalled {
+		c.stalled = false
+		close(c.resume)
+	}
+	w.mu.Unlock()
 	w.add(Rec{"e": "close", "c": sym})
 	return true
 }
@@ -622,8 +670,22 @@ func (w *World) gauges() (int, int) {
 
 // Teardown stops everything and leaves the bubble in a state where it can
 // return.
+// resumeStalled lets every stalled client read again (a stall lasts until the
+// next quiescent point, Stop or close).
+func (w *World) resumeStalled() {
+	w.mu.Lock()
+	for _, c := range w.clients {
+		if c.stalled {
+			c.stalled = false
+			close(c.resume)
+		}
+	}
+	w.mu.Unlock()
+}
+
 func (w *World) Teardown() {
 	w.releaseAll()
+	w.resumeStalled()
 	synctest.Wait()
 	for _, c := range w.clients {
 		if !c.closed {
